@@ -68,7 +68,8 @@ impl Display for Root<'_> {
 impl Display for Key<'_> {
     fn fmt(&self, f: &mut Formatter) -> fmt::Result {
         let is_bare = |c: &u8| c.is_ascii_alphanumeric() || b"_-".contains(c);
-        if self.0.iter().all(is_bare) {
+        // a bare key must not be empty
+        if !self.0.is_empty() && self.0.iter().all(is_bare) {
             bstr(self.0).fmt(f)
         } else {
             Value::String(self.0).fmt(f)
